@@ -17,6 +17,7 @@ package wal
 //@   ensures[C08] err != nil ==> result0 == nil
 
 //@ func (*WAL).Append
+//@   nonblocking[C15]
 //@   modifies w.nextSequence, w.bytesWritten, w.batchByteSize, w.overflowWarning, w.lastSync, wrlen, wrbytes, walLastType
 //@   ensures[C09]     err == nil ==> walLastType == RecordTypeFull || walLastType == RecordTypeLast
 //@   ensures[C08]     w.nextSequence >= old(w.nextSequence)
@@ -27,6 +28,7 @@ package wal
 
 // A batch consumes exactly one sequence number, shared by its entries; an empty batch consumes none.
 //@ func (*WAL).AppendBatch
+//@   nonblocking[C15]
 //@   modifies w.nextSequence, w.bytesWritten, w.batchByteSize, w.overflowWarning, w.lastSync, w.writer, all(Mem byte), wrlen, wrbytes, walLastType
 //@   ensures[C08]     w.nextSequence >= old(w.nextSequence)
 //@   ensures[C08]     err == nil && len(entries) == 0 ==> result0 == old(w.nextSequence) && w.nextSequence == old(w.nextSequence)
